@@ -35,7 +35,7 @@ ASSUMPTIONS = ["target probabilities = the chain's own rate vector / intensity (
                "n-d samplers: 2-d and 3-d Levy-copula chains on small fixed grids (Clayton / independent copulas, "
                "finite-variation margins); their law is decided to 2(K+1)/2^14"]
 TIERS = {
-    "quick": {"worlds": 400, "wall": 520, "shrink_budget": 60, "sweep": 1 << 16,
+    "quick": {"worlds": 2000, "wall": 520, "shrink_budget": 60, "sweep": 1 << 16,
               "required_probes": ["c02.ops_done", "c02.repeat_after_pickle", "c02.repeat_after_deepcopy",
                                   "c02.small_cache_world", "c02.sweep_done", "c02.fresh_compared", "c02.nd_ops_done",
                                   "c02.nd_sweep_done", "c02.nd_repeat_after_copy"]},
